@@ -216,6 +216,15 @@ def main(tier, seed):
 
 def replay(path):
     d = json.load(open(path))
+    if d.get('cex', {}).get('kind') == 'damage':
+        from . import brokk
+        c = d['cex']
+        ws = next(w for l, w, i in brokk.workspaces() if l == c['label'])
+        oracle = native.Oracle(native.build('oracle-ide'))
+        bad, na = brokk.probe(oracle, ws, c['file_index'], c['text'])
+        oracle.close()
+        print(json.dumps({'panicking_answers': bad[:20], 'answers': na}))
+        return 1 if bad else 0
     if d.get('cex', {}).get('kind') == 'imports':
         oracle = native.Oracle(native.build('oracle-ide'))
         bad, na = impk.probe(oracle, impk.render(d['cex']['n'], d['cex']['mode']))
